@@ -208,6 +208,14 @@ def gen_plan(rng, run_index, tier, opts):
             tk["skip_nodes"] = list(all_nodes)   # no nodal restriction at all (the problem of the assets side by side)
         if rng.random() < 0.12:
             tk["report_first"] = True        # the report (extract_output) is drawn up before the desk reads x from the result object
+    # (round 12) a set-up with a window that EAO refuses (price arrays made for another horizon), and rebuilds without any window
+    for tk in ticks:
+        if rng.random() < 0.08:
+            tk["refused_first"] = True
+        if rng.random() < 0.06 and tk["form"] != "date":
+            tk["no_window"] = True           # fix_time_window=None: nothing is pinned, whatever was asked for before
+        if rng.random() < 0.10 and not is_mip and not split:
+            tk["slp_extend"] = True          # the fixed problem is extended to an SLP (make_slp) before it is solved
     return plan
 
 
@@ -444,7 +452,7 @@ class Desk:
         W = set(range(lo, now))
         if tk.get("steps") and tk["form"] != "date":
             W = {int(i) for i in tk["steps"] if 0 <= int(i) < T} or W
-        if tk.get("empty") and tk["form"] != "date":
+        if (tk.get("empty") or tk.get("no_window")) and tk["form"] != "date":
             W = set()
         if tk["form"] == "mask":
             I = np.array([i in W for i in range(T)], dtype=bool)
@@ -527,6 +535,21 @@ class Desk:
         x_ref = np.asarray(x_fix, dtype=float).copy()
         if x_oracle is not None and not tk.get("x_dtype") and len(x_oracle) == len(x_ref):
             x_ref = x_oracle      # "its previous value" is the value the solution had when it was returned
+        if tk.get("no_window") and tk["form"] != "date":
+            fx = None
+            self.fault("rebuild_without_window")
+        if tk.get("refused_first"):
+            # the same set-up with price arrays one step short: refused by every asset that reads a price (ValueError); what the
+            # refused call left behind must not show in the set-up that follows
+            self.fault("refused_window_setup")
+            try:
+                bad = {k_: (v_[:-1] if hasattr(v_, "__len__") and len(v_) == T else v_) for k_, v_ in pr.items()} if isinstance(pr, dict) else pr
+                Ib = np.array([i < max(1, T // 2) for i in range(T)], dtype=bool)
+                P.setup_optim_problem(bad, g, fix_time_window={"I": Ib, "x": np.asarray(x_fix, dtype=float).copy()})
+                self.events.append((k, "refused-setup-accepted"))
+            except Exception as e:
+                self.events.append((k, "refused:%s" % type(e).__name__))
+            self.grid_set = True
         garg = g
         if tk["grid_arg"] == "none":
             if not self.grid_set:
@@ -602,6 +625,37 @@ class Desk:
                       "variable %d (%s) has no mapping row in the window but its bounds changed: [%r,%r] vs [%r,%r] (%d such variables)"
                       % (i, describe_var(m, i), l[i], u[i], lf[i], uf[i], len(bad)), field=var_kind(self.w, m, i))
             return
+        if tk.get("slp_extend") and fixed.any() and not plan.get("split"):
+            # the documented use of the feature ("looping through present / future in SLP"): the fixed problem is extended to a
+            # two-stage SLP.  Every variable of the SLP that stands for a pinned variable (same asset, node, name, step - the
+            # per-sample copies of future variables included) must be pinned to the same value.
+            try:
+                t_future = g.timepoints[max(1, min(T - 1, (min(W) + max(W) + 1) // 2 if W else 1))]
+                slp = eao.stoch_lin_prog.make_slp(copy.deepcopy(op), P, g, t_future, [self.B.prices(plan["curves"][0])])
+                self.fault("slp_extension_of_fixed_problem")
+            except Exception as e:
+                slp = None
+                self.events.append((k, "slp-raise:%s@%s" % canon.exc_sig(e)))
+            if slp is not None:
+                # layout of the extension (docstring and code of make_slp): the n variables of the problem, then per sample the
+                # future variables in their order
+                m1 = op_free.mapping[~op_free.mapping.index.duplicated(keep="first")].sort_index()
+                fut_steps = [int(i_) for i_, tp_ in zip(g.I, g.timepoints) if tp_ >= pd.Timestamp(t_future)]
+                If_idx = np.asarray(m1.index[m1["time_step"].isin(fut_steps).values], dtype=int)
+                ls_, us_ = np.asarray(slp.l, float), np.asarray(slp.u, float)
+                n_f = len(If_idx)
+                if n_f and (len(ls_) - n) % n_f == 0:
+                    src = np.concatenate([np.arange(n)] + [If_idx] * ((len(ls_) - n) // n_f))
+                    for j_, i_ in enumerate(src):
+                        if fixed[i_]:
+                            v_ = float(x_ref[i_])
+                            tol_ = 1e-9 * (1 + abs(v_))
+                            if abs(ls_[j_] - v_) > tol_ or abs(us_[j_] - v_) > tol_:
+                                self.viol("F1-window-variable-not-pinned", k,
+                                          "SLP extension (make_slp) of the fixed problem: variable %d stands for the pinned variable %d (%s) but has "
+                                          "l=%r u=%r, previous value %r" % (j_, i_, describe_var(m, int(i_)), ls_[j_], us_[j_], v_), field="slp-copy")
+                                return
+                self.stats["slp_extensions_checked"] = self.stats.get("slp_extensions_checked", 0) + 1
         self.stats["vars_fixed"] += int(fixed.sum())
         self.stats["vars_free_checked"] += int((~fixed).sum())
         self.reach(m, fixed, W, tk, x_kind)
@@ -790,7 +844,7 @@ def simplify_candidates(plan):
             c["world"]["portfolios"][P]["assets"] = [x for x in assets if x != a]
             yield c
     for i, tk in enumerate(plan["ticks"]):
-        for k in ("solver_fault", "restart", "x_source", "reuse_dict", "lo", "steps", "skip_nodes", "empty", "soft_solve", "x_dtype", "between", "positional", "report_first"):
+        for k in ("solver_fault", "restart", "x_source", "reuse_dict", "lo", "steps", "skip_nodes", "empty", "soft_solve", "x_dtype", "between", "positional", "report_first", "refused_first", "no_window", "slp_extend"):
             if tk.get(k):
                 c = copy.deepcopy(plan)
                 c["ticks"][i].pop(k)
